@@ -125,6 +125,7 @@ class E3Check(Check):
         "project_with_cached_positions", "compute_ape", "compute_rpe",
         "compute_main_ape", "compute_merge_results",
         "compute_umeyama_contiguous", "compute_lie", "compute_plot",
+        "time_range_absolute_bounds",
     )
 
     def setup_worker(self):
